@@ -1,5 +1,5 @@
 """Property -> harnesses registry."""
-import h_doc, h_c13, h_lib, h_squash, h_pos, h_paths, h_titles, h_actions, h_events, h_server
+import h_doc, h_c13, h_lib, h_squash, h_pos, h_paths, h_titles, h_actions, h_events, h_server, h_router
 
 def doc(prog, tier):
     return h_doc.DocHarness(prog, tier)
@@ -58,6 +58,7 @@ PATHS_SPEC = {'make': lambda prog, tier: h_paths.PathsHarness(prog, tier), 'time
 TITLES_SPEC = {'make': lambda prog, tier: h_titles.TitlesHarness(prog, tier), 'time_limit': {'quick': 300, 'thorough': 600}}
 
 SERVER_SPEC = {'make': lambda prog, tier: h_server.ServerHarness(prog, tier), 'time_limit': {'quick': 420, 'thorough': 1800}, 'crates': ('liwe', 'iwes')}
+ROUTER_SPEC = {'make': lambda prog, tier: h_router.RouterHarness(prog, tier), 'time_limit': {'quick': 300, 'thorough': 600}, 'crates': ('liwe', 'iwes')}
 EVENTS_SPEC = {'make': lambda prog, tier: h_events.EventsHarness(prog, tier), 'time_limit': {'quick': 300, 'thorough': 900}}
 ACTIONS_SPEC = {'make': lambda prog, tier: h_actions.ActionsHarness(prog, tier), 'time_limit': {'quick': 420, 'thorough': 2400}, 'crates': ('liwe', 'iwes')}
 ACTIONS_LISTS_SPEC = {'make': lambda prog, tier: h_actions.ActionsHarness(prog, tier, 'lists'), 'time_limit': {'quick': 420, 'thorough': 2400}, 'crates': ('liwe', 'iwes')}
@@ -77,6 +78,10 @@ PROPS = {
         'the emitted text, percent-encoding of unusual file names (C14) and sub-directory rename sites are outside']},
     'C09': {'specs': [ACTIONS_SPEC], 'notes': ACT_NOTES},
     'C10': {'specs': [ACTIONS_SPEC, ACTIONS_LISTS_SPEC], 'notes': ACT_NOTES},
+    'C11': {'specs': [ROUTER_SPEC], 'notes': COMMON + [
+        'the schedule enters through one symbolic variable: how many clones of the router\'s Arc<Server> are alive (one per in-flight request worker) when the loop thread '
+        'handles the notification; fairness assumption: every worker terminates (while the loop thread sleeps, workers finish one by one); claimed for the loop-thread step '
+        'Router::on_notification -> Server::handle_did_* -> Database::update_document; memory ordering, the channel and thread spawning are outside']},
     'C12': {'specs': [SERVER_SPEC, ACTIONS_SPEC, ACTIONS_LISTS_SPEC, dict(LIB_SPEC, crates=('liwe', 'iwes'))], 'notes': ACT_NOTES + ['claimed at the handler -> liwe boundary for code actions: action() for every provider x every node of a note never panics, and every offered action resolves (changes() is Some and does not panic); serde, Urls, the router and the other request kinds are outside']},
     'C06': {'specs': [TITLES_SPEC, LIB_SPEC, KANI_C06], 'notes': COMMON + [
         'decision kernel only: link kind x position x url form x (linking directory, target directory) x target has heading; output read from the projected GraphBlocks; '
